@@ -51,6 +51,20 @@ macro_rules! bi_impl {
                     let r = neg(&a.mul(&b));
                     format!("{} {}", show(&l), &show(&r)[3..])
                 }
+                "bdeduce_swapx" | "bdeduce_negy" => {
+                    let sx = |b: $V, d: $V, u: $V| BSimplex::<$V>(subjective_logic::mul::Simplex::new_unchecked([b, d], u));
+                    let base = w(0).deduce(&[sx(x[4], x[5], x[6]), sx(x[7], x[8], x[9])], x[10]);
+                    let other = if c.op == "bdeduce_swapx" {
+                        // antecedent negated, conditionals exchanged: same result
+                        BOpinion::<$V>::new_unchecked(x[1], x[0], x[2], 1.0 - x[3])
+                            .deduce(&[sx(x[7], x[8], x[9]), sx(x[4], x[5], x[6])], x[10])
+                    } else {
+                        // y negated: conditionals and base rate negated, result negated back
+                        let r = w(0).deduce(&[sx(x[5], x[4], x[6]), sx(x[8], x[7], x[9])], 1.0 - x[10]);
+                        BOpinion::<$V>::new_unchecked(*r.d(), *r.b(), *r.u(), 1.0 - *r.a())
+                    };
+                    format!("{} {}", show(&base), &show(&other)[3..])
+                }
                 "btunc" => show(&w(0).trans_unc(x[4])),
                 "btopp" => show(&w(0).trans_opp(x[4], x[5])),
                 "btbsr" => show(&w(0).trans_bsr(x[4])),
